@@ -72,6 +72,51 @@ fn reader_digest(dev: SimDev, maxp: usize) -> std::result::Result<String, String
     Ok(out.join(" "))
 }
 
+/// `reader_digest` plus every blob (image payloads, masks and the given descriptors), read forwards and
+/// then once more backwards on the SAME reader: after a read that fails (e.g. on a torn page) a later
+/// read must still return the true bytes or an error
+fn reader_digest_blobs(dev: SimDev, maxp: usize, blobs: &[(u64, u64)]) -> std::result::Result<String, String> {
+    let head = reader_digest(SimDev::new(dev.data()), maxp)?;
+    let mut r = E57Reader::new(SimDev::new(dev.data())).map_err(|e| format!("open: {e}"))?;
+    let mut all: Vec<e57::Blob> = vec![];
+    for img in r.images() {
+        if let Some(v) = &img.visual_reference {
+            all.push(v.blob.data.clone());
+            all.extend(v.mask.clone());
+        }
+        if let Some(p) = &img.projection {
+            let (b, m) = match p {
+                e57::Projection::Pinhole(x) => (&x.blob, &x.mask),
+                e57::Projection::Spherical(x) => (&x.blob, &x.mask),
+                e57::Projection::Cylindrical(x) => (&x.blob, &x.mask),
+            };
+            all.push(b.data.clone());
+            all.extend(m.clone());
+        }
+    }
+    for (o, l) in blobs {
+        all.push(e57::Blob::new(*o, *l));
+    }
+    let mut out = vec![head];
+    let order: Vec<usize> = (0..all.len()).chain((0..all.len()).rev()).collect();
+    for k in order {
+        let mut buf = vec![];
+        match r.blob(&all[k], &mut buf) {
+            Ok(n) => out.push(format!("blob={n}:{}", fnv_bytes(&buf))),
+            Err(_) => out.push("blob=err".into()),
+        }
+    }
+    Ok(out.join(" "))
+}
+
+/// an accepted image may answer a data read with an error, everything else must equal the complete file
+fn same_or_error(full: &str, got: &str) -> bool {
+    let a: Vec<&str> = full.split(' ').collect();
+    let b: Vec<&str> = got.split(' ').collect();
+    a.len() == b.len()
+        && a.iter().zip(b.iter()).all(|(x, y)| x == y || (x.starts_with("points=") && (*y == "points=rawerr" || y.ends_with(":err"))) || (x.starts_with("blob=") && *y == "blob=err"))
+}
+
 pub fn generate(sink: &mut Sink, seed: u64, thorough: bool) {
     let mut rng = Rng::new(seed ^ 0xDE71CE);
     let lv = library_version();
@@ -218,8 +263,17 @@ pub fn generate(sink: &mut Sink, seed: u64, thorough: bool) {
     // ---------------------------------------------------------------- 3. crash images (C15)
     let ncrash = if thorough { 150 } else { 25 };
     let cuts: [usize; 18] = [0, 1, 8, 16, 24, 25, 31, 32, 33, 39, 40, 47, 48, 49, 512, 1019, 1020, 1023];
-    for _ in 0..ncrash {
-        let mut prog = {
+    // besides random programs: tiny files whose XML ends on the page where the last blob starts (the page
+    // the reader has cached after opening), so that reads after a failed read of the torn first page
+    // are served from that very page
+    let mut tiny: Vec<Program> = vec![];
+    for (a, b) in [(1100usize, 8usize), (1000, 1), (1150, 40), (980, 16), (1200, 3)] {
+        tiny.push(Program { guid: "tiny".into(), stmts: vec![Stmt::Blob(Data::Gen(a, 5)), Stmt::Blob(Data::Gen(b, 9)), Stmt::Fin] });
+    }
+    for k in 0..ncrash + tiny.len() {
+        let mut prog = if k < tiny.len() {
+            tiny[k].clone()
+        } else {
             let mut g = Gen { rng: &mut rng, exts: vec![], n: 0 };
             g.program(6)
         };
@@ -240,7 +294,16 @@ pub fn generate(sink: &mut Sink, seed: u64, thorough: bool) {
         let line = prog.case_line(&lv);
         let writes: Vec<(u64, Vec<u8>)> = dev.log().into_iter().filter_map(|e| if let Ev::Write(o, b) = e { Some((o, b)) } else { None }).collect();
         let complete = run.file.clone();
-        let Ok(Ok(full)) = guarded(|| reader_digest(SimDev::new(complete.clone()), 100000)) else { continue };
+        let pblobs: Vec<(u64, u64)> = expected_scene(&prog, &run.results).blobs.iter().map(|b| (b.0, b.1)).collect();
+        let full = match guarded(|| reader_digest_blobs(SimDev::new(complete.clone()), 100000, &pblobs)) {
+            Ok(Ok(f)) => f,
+            other => {
+                if std::env::var("E57H_VERBOSE").is_ok() {
+                    eprintln!("crash program skipped: {:?}", other.map(|r| r.map(|s| s.len())));
+                }
+                continue;
+            }
+        };
         // the write that makes the header real: the first write of page 0 whose XML length field is set
         // (later writes of page 0 — the drop of the writer flushes again — carry identical bytes)
         let last_header = writes.iter().position(|(o, b)| *o == 0 && b.len() >= 40 && b[32..40].iter().any(|x| *x != 0)).unwrap_or(0);
@@ -260,7 +323,7 @@ pub fn generate(sink: &mut Sink, seed: u64, thorough: bool) {
                     sink.oracle_evals += 1;
                     let mut img = image.clone();
                     apply(&mut img, *off, &bytes[..*c]);
-                    let res = guarded(|| reader_digest(SimDev::new(img.clone()), 100000));
+                    let res = guarded(|| reader_digest_blobs(SimDev::new(img.clone()), 100000, &pblobs));
                     let replay = format!("{line} ## crash_after_write={i} cut={c}");
                     match res {
                         Err(_) => sink.fail("C08", "reader/panic-on-crash-image", &replay, "reader panicked on a crash image"),
@@ -271,9 +334,7 @@ pub fn generate(sink: &mut Sink, seed: u64, thorough: bool) {
                             if before_final {
                                 sink.fail("C15", "crash/accepted-before-finalize", &replay, &format!("an image from before the end of the top-level finalize (write {i} of {}, {c} bytes of it) is accepted by the reader", writes.len()));
                             } else {
-                                let a: Vec<&str> = full.split(' ').collect();
-                                let b: Vec<&str> = dg.split(' ').collect();
-                                let same = a.len() == b.len() && a.iter().zip(b.iter()).all(|(x, y)| x == y || (x.starts_with("points=") && (*y == "points=rawerr" || y.ends_with(":err"))));
+                                let same = same_or_error(&full, &dg);
                                 if !same {
                                     sink.fail("C15", "crash/accepted-image-differs", &replay, "an accepted crash image reports content that differs from the complete file");
                                 }
